@@ -634,7 +634,7 @@ pub mod c06 {
     bufferdata_harness!(t_bufferdata_58, 58, 80);
     // ---------------------------------------------------------------- PkgLength width boundaries with real bodies
     /// one opaque child sized so that the body is exactly $body bytes: 62 -> one-byte PkgLength (total 63),
-    /// 63 -> two bytes; 4093 / 4094 -> two / three bytes (thorough)
+    /// 63 -> two bytes
     macro_rules! boundary_harness {
         ($name:ident, $child:expr, $cap:expr, $unw:expr, |$c:ident, $p:ident, $root:ident, $segs:ident| $mk:expr, $op:expr, $oplen:expr, |$e:ident| $fixed:expr) => {
             #[kani::proof]
@@ -689,10 +689,10 @@ pub mod c06 {
     boundary_harness!(t_boundary_varpackage_62, 62, 72, 80, |c, p, root, segs| { let _ = p; VarPackageTerm::new(&c) }, [0x13u8], 1, |e| ());
     boundary_harness!(t_boundary_varpackage_63, 63, 72, 80, |c, p, root, segs| { let _ = p; VarPackageTerm::new(&c) }, [0x13u8], 1, |e| ());
     boundary_harness!(t_boundary_bufferterm_63, 63, 72, 80, |c, p, root, segs| { let _ = p; BufferTerm::new(&c) }, [0x11u8], 1, |e| ());
-    // 4095 / 4096 (two -> three bytes): body 4093 -> total 4095 (2 bytes), 4094 -> 4097 (3 bytes)
-    boundary_harness!(t_boundary_scope_4093, 4089, 4104, 4110, |c, p, root, segs| Scope::new(p, vec![&c]), [0x10u8], 1, |e| ref_namestring(&mut e, root, &segs));
-    boundary_harness!(t_boundary_scope_4094, 4090, 4104, 4110, |c, p, root, segs| Scope::new(p, vec![&c]), [0x10u8], 1, |e| ref_namestring(&mut e, root, &segs));
-    boundary_harness!(t_boundary_else_4094, 4094, 4104, 4110, |c, p, root, segs| { let _ = p; Else::new(vec![&c]) }, [0xa1u8], 1, |e| ());
+    // 4095 / 4096 (two -> three bytes): harnesses with bodies of 4093 / 4094 bytes (t_boundary_scope_4093,
+    // t_boundary_scope_4094, t_boundary_else_4094) were tried in the thorough tier and removed: symbolic
+    // execution alone (a 4100-iteration byte loop per sink call, 9 GB) does not finish in 2400 s. The
+    // PkgLength encoder is decided for every length by C07; the composition at that size is not materialised.
     // ---------------------------------------------------------------- composition witness
     /// Independent recursive-descent decoder for the subset of AML the witnesses use (ACPI 6.5 20.2).
     /// It is told nothing but the grammar: it records (opcode, value) events, and for every
